@@ -41,6 +41,10 @@ CHECKS = {
    tech="TLA+ spec SearchFlow.tla (Fallback stage and its invariants): TLC model check + scenario enumeration; paired real searches (typo tolerance on/off) validated by TLC against TraceSearch.tla",
    text="TLC checks on the abstract engine that the fallback stage is enabled only when nothing was scored, returns only sufficiently good subsequence matches and is complete; for every enumerated scenario with typo tolerance on, the real search is run with and without it and TLC checks the recorded pair: identical answers whenever the plain search finds something, otherwise every result contains the query as a subsequence, meets the requested threshold, best first, and an eligible subsequence match is never left unanswered when no threshold is set.",
    note="Match quality recomputed with the matcher library per result; threshold 0 = unset."),
+ "C20": dict(cat="model_checking", ref="DESIGN.md section 5, C20",
+   tech="TLA+ spec SearchFlow.tla enumerates scenarios with TLC; each is executed with the query and its admissible case re-spellings (and white-space paddings through the real binary); TLC validates on the recorded events that all answers are identical (TraceSearch.tla)",
+   text="For TLC-enumerated scenarios on every path (lexical, NLP, typo fallback, cached, CLI) the query is re-spelt in upper, title and alternating case and with code points whose lower case is an ordinary letter (KELVIN SIGN, ANGSTROM SIGN); at the CLI it is additionally padded with leading, trailing, repeated spaces and tabs; TLC checks that every re-spelling received the identical ranked answer with identical score bits.",
+   note="Only re-spellings with ToLower(r') = ToLower(r) are paired; awkward letters outside that relation are not compared."),
 }
 NOT_APPLICABLE = {}
 
